@@ -84,7 +84,7 @@ func c10Events() []*c10Event {
 		srcs = append(srcs, fmt.Sprintf(`add_key(%s, obj.attr)`, k))
 		srcs = append(srcs, fmt.Sprintf(`set_tag(%s, a)`, k)) // value read from another key
 		srcs = append(srcs, fmt.Sprintf("drop_key(%s)", k))
-		for _, t := range []string{"bool", "int", "float", "str"} {
+		for _, t := range []string{"bool", "int", "float", "str", "string"} {
 			srcs = append(srcs, fmt.Sprintf(`cast(%s, "%s")`, k, t))
 		}
 		srcs = append(srcs, fmt.Sprintf("set_measurement(%s, true)", k))
@@ -558,7 +558,7 @@ func init() {
 		ID:    "C10",
 		Level: "model_checking",
 		Rule: "explicit-state search: states = real input.Point objects, cloned whole (unexported fields and sharing between index entries included) and merged only when the whole objects hash alike (measurement, time, tags, fields with Go types AND the key index), initial states = 4 points over {a field, t1 tag, message, small-int/float32 fields} covering every supported field type; " +
-			"transitions = 139 scripts (one builtin call each, incl. the `_` spelling) run by the real engine on a deep clone (add_key x 5 keys x 7 value kinds, add_key(k), set_tag(k[, literal | attribute expression | other key]), add_key(k, attribute expression), drop_key, rename over all ordered key pairs, cast x 4 types, set_measurement(k,true), default_time, uppercase, grok writing typed captures); " +
+			"transitions = 146 scripts (one builtin call each, incl. the `_` spelling) run by the real engine on a deep clone (add_key x 5 keys x 7 value kinds, add_key(k), set_tag(k[, literal | attribute expression | other key]), add_key(k, attribute expression), drop_key, rename over all ordered key pairs, cast x 5 type names, set_measurement(k,true), default_time, uppercase, grok writing typed captures); " +
 			"breadth-first to depth 3 (thorough: a fourth level over the events about three of the keys) with depth-aware de-duplication on the canonical state (a state is expanded again when met nearer the root); in every state: I1 every output key reads back (Point.Get and a script read) with exactly the stored value and type, I2 no key is tag and field, I3 field types, I4 no read returns a value the output lacks, I5 every output key can be dropped and renamed (one-step look-ahead), I6 no two keys share one (pooled) index entry object, I7 a plain-expression read of the event's key inside the event script, directly after the builtin, gives what the point then holds; plus agreement with the reference point model",
 		Assumptions: []string{"level 1 is sharded across workers, de-duplication is per worker (states reached in several subtrees are checked more than once)"},
 		Run:            c10Run,
